@@ -8,6 +8,8 @@ import (
 	"os"
 	"path/filepath"
 	"strings"
+	"sync"
+	"syscall"
 
 	carv2 "github.com/ipld/go-car/v2"
 	"github.com/multiformats/go-multicodec"
@@ -20,6 +22,7 @@ import (
 
 type c10Desc struct {
 	Seed int64 `json:"seed"`
+	Big  int   `json:"big,omitempty"` // > 0: that many tiny sections (the index of the wrap is built from tens of thousands of records)
 }
 
 func mustWrite(p string, b []byte) {
@@ -35,6 +38,30 @@ func mustRead(p string) []byte {
 	return b
 }
 
+// c10OtherFS returns a writable directory on a filesystem other than the temporary directory's
+// ("" when there is none).
+var c10OtherFSOnce sync.Once
+var c10OtherFSDir string
+
+func c10OtherFS() string {
+	c10OtherFSOnce.Do(func() {
+		var a, b syscall.Stat_t
+		if syscall.Stat(os.TempDir(), &a) != nil {
+			return
+		}
+		for _, cand := range []string{"/dev/shm", "/run/shm", "/var/tmp"} {
+			if syscall.Stat(cand, &b) == nil && b.Dev != a.Dev {
+				if d, err := os.MkdirTemp(cand, "carlab-probe-"); err == nil {
+					os.RemoveAll(d)
+					c10OtherFSDir = cand
+					return
+				}
+			}
+		}
+	})
+	return c10OtherFSDir
+}
+
 func runC10(t *mon.T, raw json.RawMessage) {
 	var d c10Desc
 	if err := json.Unmarshal(raw, &d); err != nil {
@@ -42,6 +69,14 @@ func runC10(t *mon.T, raw json.RawMessage) {
 	}
 	r := gen.Rand(d.Seed)
 	content := gen.MakeContent(r, gen.ContentOpts{MinBlocks: 0, MaxBlocks: 8, MaxRoots: 4, Dups: true, Synthetic: true, Boundaries: true, Block: gen.BlockOpts{MaxSize: 300}})
+	if d.Big > 0 {
+		content.Blocks = content.Blocks[:0]
+		for i := 0; i < d.Big; i++ {
+			dg := gen.Bytes(r, []int{32, 32, 20, 64}[i%4])
+			content.Blocks = append(content.Blocks, refcar.Block{Cid: refcar.MakeCidV1(0x55, []uint64{0x12, 0x13}[i%2], dg), Data: []byte{byte(i), byte(i >> 8)}})
+		}
+		t.Cover("input:tens-of-thousands-of-sections")
+	}
 	storeID := r.Intn(2) == 0
 	sorted := r.Intn(2) == 0
 	if !storeID && r.Intn(4) == 0 {
@@ -126,6 +161,14 @@ func runC10(t *mon.T, raw json.RawMessage) {
 			t.Cover("wrap")
 		}
 		src, dst := filepath.Join(dir, "src.car"), filepath.Join(dir, "wrapped.car")
+		if od := c10OtherFS(); od != "" && len(x)%4 == 1 {
+			// the destination lies on another filesystem than the temporary directory (and the source)
+			if sub, err := os.MkdirTemp(od, "carlab-c10-"); err == nil {
+				defer os.RemoveAll(sub)
+				dst = filepath.Join(sub, "wrapped.car")
+				t.Cover("wrapfile-destination-on-another-filesystem")
+			}
+		}
 		mustWrite(src, x)
 		if r.Intn(2) == 0 {
 			mustWrite(dst, gen.Bytes(r, len(x)*2+500)) // destination pre-exists and is larger
@@ -334,6 +377,9 @@ func genC10(g *mon.G) {
 	for i := 0; i < g.Pick(600, 10000); i++ {
 		g.Emit(c10Desc{Seed: r.Int63()})
 	}
+	for i := 0; i < g.Pick(2, 8); i++ {
+		g.Emit(c10Desc{Seed: r.Int63(), Big: []int{16500, 33000, 50000}[i%3] + r.Intn(3000)})
+	}
 }
 
 func init() {
@@ -344,6 +390,6 @@ func init() {
 		Assumptions: []string{"reference encoder (refcar) for CARv2 renderings and spliced headers"},
 		Gen:         genC10,
 		Run:         runC10,
-		MinCover:    map[string]int{"wrap": 50, "extract:in-place": 50, "extract:larger-existing": 50, "replace-roots:same-size": 50, "replace-roots:different-size": 50, "wrapfile-over-larger-file": 10, "wrap-null-padded-source": 50, "extract:in-place-symlink": 50, "extract:in-place-hardlink": 50},
+		MinCover:    map[string]int{"wrap": 50, "extract:in-place": 50, "extract:larger-existing": 50, "replace-roots:same-size": 50, "replace-roots:different-size": 50, "wrapfile-over-larger-file": 10, "input:tens-of-thousands-of-sections": 2, "wrap-null-padded-source": 50, "extract:in-place-symlink": 50, "extract:in-place-hardlink": 50},
 	})
 }
